@@ -233,7 +233,11 @@ def pe(e):
     if k == 'fcall':
         return '%s(%s)' % (e[1], pargs(e[2]))
     if k == 'aggx':
-        return '%s{%s :- %s}' % (e[1], pe(e[2]), pb(e[3]))
+        # body-less `Op{e}`; `+` has no Op{..} spelling: `(combine += e :- body)`
+        inner = '%s :- %s' % (pe(e[2]), pb(e[3])) if e[3] else pe(e[2])
+        if e[1] == '+':
+            return '(combine += %s)' % inner
+        return '%s{%s}' % (e[1], inner)
     raise ValueError(e)
 
 
@@ -290,7 +294,7 @@ def pl(l):
         return '((%s) => (%s))' % (pb(l[1]), pb(l[2]))
     if k == 'agg':
         form = l[5]
-        inner = '%s :- %s' % (pe(l[3]), pb(l[4]))
+        inner = '%s :- %s' % (pe(l[3]), pb(l[4])) if l[4] else pe(l[3])
         if form == 0:
             return '%s == %s{%s}' % (l[1], l[2], inner)
         if form == 1:
